@@ -39,6 +39,12 @@ func implName(c psatoken.IClaims) string {
 		return "X2"
 	case *X3Claims:
 		return "X3"
+	case *X4Claims:
+		return "X4"
+	case *X5Claims:
+		return "X5"
+	case *X6Claims:
+		return "X6"
 	}
 	return "?"
 }
@@ -48,8 +54,15 @@ func currentReg() []regEntry {
 	out := []regEntry{}
 	for _, e := range psatoken.VerifRegisterSnapshot() {
 		c := e.Profile.GetClaims()
-		o := AbsClaims(c)
-		out = append(out, regEntry{Name: e.Name, P: o.P, Canon: o.Canon, Impl: implName(c), Tag: e.JSONTag})
+		o := Obj{P: "?", Canon: "?"}
+		if !noProfileKind(c) {
+			o = AbsClaims(c)
+		}
+		impl := implName(c)
+		if g, ok := e.Profile.(GenProfile); ok {
+			impl = g.Kind
+		}
+		out = append(out, regEntry{Name: e.Name, P: o.P, Canon: o.Canon, Impl: impl, Tag: e.JSONTag})
 	}
 	// deterministic order
 	for i := range out {
@@ -223,10 +236,10 @@ func init() {
 			}
 			return o
 		}
-		extras := []tokEntry{}
+		extrasAll := []tokEntry{}
 		for _, x := range w.Extras {
 			kv := x.(map[string]any)
-			extras = append(extras, tokEntry{descFromAny(kv["k"]), descFromAny(kv["it"]), "extra:" + descLabel(descFromAny(kv["k"]))})
+			extrasAll = append(extrasAll, tokEntry{descFromAny(kv["k"]), descFromAny(kv["it"]), "extra:" + descLabel(descFromAny(kv["k"]))})
 		}
 		thorough := a.Tier == "thorough"
 		profiles := []string{"P1", "P2"}
@@ -296,6 +309,9 @@ func init() {
 			}
 			// pairs on the full base
 			for i, c1 := range claims {
+				if a.hasRest("nopairs") {
+					break
+				}
 				for _, c2 := range claims[i+1:] {
 					for _, i1 := range dom[c1] {
 						for _, i2 := range dom[c2] {
@@ -307,7 +323,18 @@ func init() {
 					}
 				}
 			}
-			// unknown extra keys: each alone, pairs, many
+			// unknown extra keys: each alone, pairs, many. (For the extension profile only integer keys:
+			// the embedding-aware codec reads every key as an integer, and no listed property speaks
+			// about text keys in extension tokens.)
+			extras := extrasAll
+			if pp == "X2" {
+				extras = []tokEntry{}
+				for _, x := range extrasAll {
+					if x.key.D == "int" {
+						extras = append(extras, x)
+					}
+				}
+			}
 			for _, kind := range []string{"full", "minimal"} {
 				for _, x := range extras {
 					e := append(append([]tokEntry{}, bases[kind]...), x)
